@@ -157,6 +157,9 @@ func cmdList(args []string) int {
 	return 0
 }
 
+// fastOnly (environment GOVC_FAST=1, for contract authors): stop after the short race and the sound weakenings
+var fastOnly bool
+
 func cmdVC(args []string) int {
 	fs := flag.NewFlagSet("vc", flag.ExitOnError)
 	repo := fs.String("repo", "/repo", "repository root")
@@ -167,6 +170,7 @@ func cmdVC(args []string) int {
 	verbose := fs.Bool("v", false, "verbose")
 	failing := fs.Bool("f", false, "only failing")
 	fs.Parse(args)
+	fastOnly = os.Getenv("GOVC_FAST") == "1"
 	p, err := LoadProgram(*repo)
 	if err != nil {
 		fmt.Fprintln(os.Stderr, err)
@@ -405,6 +409,10 @@ func solveAllSkipping(obls []*Obligation, scripts []string, valueNames [][]strin
 					}
 				}
 			}
+			if fastOnly {
+				finish(&SolverResult{Status: "unknown", Solver: "fast-only"})
+				return
+			}
 			// stage 3: the full portfolio chain (last-resort members, model search for a counterexample)
 			var r *SolverResult
 			if thorough && plain[i] != "" {
@@ -429,6 +437,9 @@ func solveAllSkipping(obls []*Obligation, scripts []string, valueNames [][]strin
 		}()
 	}
 	wg.Wait()
+	if fastOnly {
+		return results
+	}
 	// retry phase: an obligation left undecided (unknown / timeout) while 48 solver processes share the machine is tried
 	// again with little competition and three times the budget, so that load does not turn into an alarm
 	sem2 := make(chan struct{}, 4)
